@@ -10,7 +10,8 @@ merges adjacent layers and is refused whenever an attribute that changes pixels 
 (C14.d)."""
 import ast
 
-from ..engine import rule
+from ..engine import rule, run_property
+TILE = 'mapproxy/cache/tile.py'
 from ..model import Undecided
 from ..cfg import dotted, call_name, is_call, simple_name, unparse, const_value, contains, enclosing, implied
 from ..flow import Defs, depends
@@ -314,3 +315,48 @@ def c14f(ctx):
     ms = ctx.fn('mapproxy/image/merge.py:LayerMerger.merge')
     ok = any(isinstance(x, ast.Attribute) and x.attr == 'opacity' and 'image_opts' in unparse(x) for x in ms.walk())
     ctx.check(ok, 'LayerMerger.merge:opacity-from-image-opts', 'the merger reads the opacity from the layer image\'s options', ms)
+
+
+@rule('C14.g', floor=2)
+def c14g(ctx):
+    """clipping is never skipped where the clip line crosses the image: the "one source, no merging" shortcut of the tile creator is
+    refused whenever the source has a clipping coverage that *intersects* the query box (a box that is only partly inside still
+    needs the mask; `contains` would let it through unclipped)"""
+    fn = ctx.fn(TILE + ':TileCreator._query_sources')
+    g = fn.cfg
+    direct = [(n, x) for n, x in g.find(lambda x: is_call(x, 'get_map')) if not isinstance(enclosing(x, ast.FunctionDef), type(None)) and
+              enclosing(x, ast.FunctionDef) is fn.node]
+    if not direct:
+        ctx.ok('TileCreator._query_sources:no-shortcut', 'no unmerged shortcut', fn)
+        return
+    tab = ctx.rows(table(fn.node.body, ret_kind, event_of=lambda st: 'direct' if isinstance(st, (ast.Return, ast.Assign, ast.Expr)) and st.value is not None and
+                         contains(st.value, lambda x: is_call(x, 'get_map')) else None))
+    clip = [a for a in tab.atoms if a.endswith('.coverage.clip')]
+    cov = [a for a in tab.atoms if a.endswith('.coverage') and tab.atom_objs[a].op is None]
+    inter = [a for a in tab.atoms if is_call(tab.atom_objs[a].expr, 'intersects') and 'coverage' in a and 'query.bbox' in a]
+    weaker = [a for a in tab.atoms if is_call(tab.atom_objs[a].expr, 'contains') and 'coverage' in a]
+    ok = len(clip) == 1 and len(cov) == 1 and len(inter) == 1 and not weaker
+    bad = []
+    if ok:
+        for asg, out, events in tab.assignments():
+            if asg[cov[0]] and asg[clip[0]] and asg[inter[0]] and 'direct' in events:
+                bad.append(asg)
+    ctx.check(ok and not bad, 'TileCreator._query_sources:shortcut-off-when-clip-intersects',
+              'the unmerged shortcut is not taken when the source has a clipping coverage that intersects the query (%d rows)' % len(tab.rows), fn,
+              fail='the single-source shortcut is taken although a clipping coverage crosses the tile: the tile is stored unclipped')
+    # the merged path hands every source's coverage to the merger
+    inner = [f for q, f in ctx.repo.funcs.items() if q.startswith(TILE + ':TileCreator._query_sources.')]
+    ok = any(any(isinstance(r.value, ast.Tuple) and len(r.value.elts) == 2 and unparse(r.value.elts[1]).endswith('.coverage') for r in returns_of(f.node) if r.value is not None)
+             for f in inner)
+    ctx.check(ok, 'TileCreator._query_sources:coverage-to-merger', 'each source image is paired with the coverage of its source for the merger', fn)
+
+
+@rule('C14.h', floor=1)
+def c14h(ctx):
+    """shared rule, re-evaluated for this property: the clip masks are positioned with the geometry that was rendered (C10.h)"""
+    sub = run_property(ctx.repo, 'C10', ctx.tier, only={'C10.h'})
+    for er in sub.errors:
+        raise Undecided('shared rule %s: %s' % er)
+    for o in sub.obs:
+        (ctx.ok if o.status == 'ok' else ctx.bad)('%s:%s' % (o.rule, o.construct), o.msg, o.where)
+    ctx.stats['functions'] |= sub.stats['functions']
